@@ -54,7 +54,7 @@ def one_case(rng, tier):
 
 def check_case(case, counters, sets):
     ar = asyncrun.run_async(case)
-    if ar.stop in ('iter-cap', 'vt-cap'):
+    if ar.stop in ('iter-cap', 'vt-cap', 'watchdog'):
         return ar, None
     prog = case['prog']
     specs = {s['id']: s for s in prog['nodes']}
